@@ -247,7 +247,7 @@ def rule_r3(p, res):
             v = kwarg(mk[0], kw)
             r.check(v is not None and norm(v) == kw, mws, mk[0], "the mask warp must use the caller's %s" % kw)
     res_ = d.single("masked_warped_image")
-    r.check(res_ is not None and norm(res_) == "warped_image.as_masked(mask=mask, copy=False)" and norm(d.single("warped_image")) .startswith("Image.warp_to_shape(") and d.single("mask") is (mk[0] if mk else None),
+    r.check(res_ is not None and norm(res_) == "warped_image.as_masked(copy=False, mask=mask)" and norm(d.single("warped_image")) .startswith("Image.warp_to_shape(") and d.single("mask") is (mk[0] if mk else None),
             mws, mws.node, "the result must be the base funnel's image (with its landmarks) re-wrapped with the warped mask")
     g = cfgmod.build(mws.node)
     for ret in returns_of(mws.node):
@@ -259,7 +259,7 @@ def rule_r3(p, res):
     r.check(len(d.of(tr)) == 1 and len(d.of(tshape)) == 1, mws, mws.node, "template shape / transform must not be re-bound between warping the pixels and the mask")
     am = p.own_method("Image", "as_masked")
     r.instance(am)
-    r.check(norm(returns_of(am.node)[0].value) == "copy_landmarks_and_path(self, MaskedImage(self.pixels, mask=mask, copy=copy))", am, am.node, "as_masked must carry landmarks and path over")
+    r.check(norm(returns_of(am.node)[0].value) == "copy_landmarks_and_path(self, MaskedImage(self.pixels, copy=copy, mask=mask))", am, am.node, "as_masked must carry landmarks and path over")
     clp = p.func("menpo.base.copy_landmarks_and_path")
     r.instance(clp)
     s = norm(clp.node)
